@@ -162,6 +162,8 @@ def run(rep, tier):
         run_partition(rep, tier)
     with rep.part('encode'):
         run_encode(rep)
+    with rep.part('generated error types'):
+        run_generated_errors(rep)
     ops = [{'op': 'error_encode'}, {'op': 'error_encode_kinds'}]
     for o, r in zip(ops, replay(ops)):
         rep.replayed += 1
@@ -384,6 +386,71 @@ def report_encode(rep, what):
         rep.violation('C17:encode', f'{what}; native encode of an error with one parameter of each kind: {r}', {'op': {'op': 'error_encode_kinds'}, 'native': r})
     else:
         rep.inconc(f'model mismatch C17 encode: {what}; native {r}')
+
+
+def battery_gen_error():
+    want = {'http': {'name': 'Gateway:HTTPUpstreamFailed', 'code': 'Timeout', 'safe_args': ['alphaArg', 'zetaArg'], 'encoded_name': 'Gateway:HTTPUpstreamFailed', 'encoded_code': 'Timeout',
+                     'params': [['alphaArg', '7'], ['secretArg', 's'], ['zetaArg', 'z']], 'safe_params': ['alphaArg', 'zetaArg'], 'unsafe_params': ['secretArg']},
+            'plain': {'name': 'Ns:PlainErr', 'code': 'CustomClient', 'safe_args': [], 'encoded_name': 'Ns:PlainErr', 'encoded_code': 'CustomClient', 'params': [], 'safe_params': [], 'unsafe_params': []}}
+    r = replay([{'op': 'gen_error'}])[0]
+    return [f'generated error {k}: native {r.get(k)}, declared {w}' for k, w in want.items() if r.get(k) != w]
+
+
+def run_generated_errors(rep):
+    """the ErrorType impl the real generator emits for the error definitions of the IR family (executed from MIR): the wire name is
+    `<namespace>:<declared name>` verbatim (not the Rust identifier), the code is the declared one, safe_args are exactly the declared
+    safe arguments, sorted (what Error::service_inner's partition -- decided above for every sorted subset -- relies on)"""
+    import os
+    from checks import gentypes
+    from vlib.common import VERIF
+    prog = gentypes.types_program()
+    ir = json.load(open(os.path.join(VERIF, 'gen-crates/types/ir/family.json')))
+    import re as _re
+    snake = lambda n: _re.sub(r'(?<!^)(?=[A-Z][a-z])|(?<=[a-z0-9])(?=[A-Z])', '_', n).lower()
+    for cfg in ('types', 'exhaustive_types'):
+        for e in ir['errors']:
+            decl = e['errorName']['name']
+            want_name = f"{e['namespace']}:{decl}".encode()
+            want_code = ''.join(w.capitalize() for w in e['code'].split('_'))
+            want_safe = sorted(a['fieldName'].encode() for a in e['safeArgs'])
+            it = Interp(prog, models_std.MODELS, {}, unwind=8)
+            fns = {m: [k for k in find_fns(prog, m, inpath=f'{gentypes.CRATE}::{cfg}::p::') if 'ErrorType' in impl_header(prog, k) and decl.lower() in k.replace('_', '').lower()] for m in ('name', 'code', 'safe_args')}
+            if any(len(v) != 1 for v in fns.values()):
+                raise Inconclusive(f'C17 harness: generated ErrorType impl of {decl} ({cfg}) not found uniquely: {fns}')
+            st = St()
+            me = st.ref(Agg('GeneratedError', ()))
+            got = {}
+            for m in ('name', 'code', 'safe_args'):
+                outs = list(it.run(fns[m][0], [me], st.fork(), {}))
+                rep.states += len(outs)
+                if len(outs) != 1 or is_abnormal(outs[0][1]):
+                    raise Inconclusive(f'C17 harness: {fns[m][0]} has {len(outs)} outcomes')
+                s2, rv = outs[0]
+                v = s2.deref_all(rv) if isinstance(rv, Ptr) else rv
+                if m == 'name':
+                    got[m] = bstr_py(v)
+                elif m == 'code':
+                    got[m] = v.decl.variants[[i for i, (n_, d_) in enumerate(v.decl.variants) if d_ == concrete(v.discr)][0]][0] if isinstance(v, Enum) and concrete(v.discr) is not None else (v.name.split('::')[-1] if isinstance(v, Agg) and not v.fields else repr(v))
+                else:
+                    got[m] = [bstr_py(s2.deref_all(x) if isinstance(x, Ptr) else x) for x in v.items] if isinstance(v, Seq) else repr(v)
+            want = {'name': want_name, 'code': want_code, 'safe_args': want_safe}
+            for m in want:
+                ok = got[m] == want[m]
+                rep.query(f'generated-error:{cfg}:{decl}:{m}==declared', 'unsat' if ok else 'sat', 0.0, got=repr(got[m]))
+                if not ok:
+                    rep.structural(f'C17:generated:{decl}:{m}', f'{cfg}: the generated ErrorType::{m}() of {e["namespace"]}:{decl} is {got[m]!r}, declared {want[m]!r}', {'cfg': cfg, 'error': decl, m: repr(got[m])}, battery_gen_error)
+            finish_engine(rep, it)
+    for fail in battery_gen_error():
+        rep.violation('C17:native:generated', f'native twin: {fail}', {'native': fail})
+    rep.replayed += 1
+
+
+def impl_header(prog, fname):
+    for info in prog.impls:
+        for ms in info.methods.values():
+            if fname in ms:
+                return info.text
+    return ''
 
 
 def run_status(rep):
